@@ -3,8 +3,11 @@
    bin are reported at their target clamped into the placement area).  Proofs: SpreadProofs.v.
    Labels: [F] proved for all inputs of the exact model; [R] refuted for the unrepaired function (finding F15).
    NOT provable here and validated by runs only (./check C06): that global placement completes without an error,
-   that every exposed value is finite, and the binary32 rounding of spreadCells / blendPlacement (Eigen's
-   conjugate gradient and single precision are outside the model). *)
+   that every exposed value is finite, and the binary32 rounding of blendPlacement / the solver (Eigen's
+   conjugate gradient is outside the model).
+   The binary32 arithmetic of spreadCells and the binary64 export step ARE modelled (SpreadFloat.v, Flocq) and the
+   theorems about them are in the last section of this file (they use the standard library's real-number axioms;
+   the theorems over Q stay closed under the global context). *)
 From Coq Require Import List ZArith QArith Qround Qabs Bool Lia.
 Import ListNotations.
 Require Import CV.Orient CV.FreeSpace CV.Spread CV.SpreadProofs.
@@ -205,6 +208,99 @@ Example c06_export_global_nonvacuous :
     {| g_fixed := true; g_x := 7; g_y := 8; g_pw := 2; g_ph := 2; g_orient := 1 |} ].
 Proof. vm_compute. reflexivity. Qed.
 
+(* ================================================================ binary32 (Flocq) ================================
+   The theorems above are about exact rationals.  The ones below are about the binary32 computation itself:
+   SpreadFloat.v replaces every C++ float operator of spreadCells by the correctly rounded IEEE-754 operation of
+   Flocq's BinarySingleNaN (round to nearest even); ./check C06 compares spreadCoordX/Y of the compiled library with
+   this model BIT FOR BIT on <= 100 non-dyadic cases per run (vm_compute).  These theorems depend on the axioms of the
+   standard library's real numbers, which Flocq is built on (Print Assumptions lists them):
+   ClassicalDedekindReals.sig_forall_dec, ClassicalDedekindReals.sig_not_dec and
+   FunctionalExtensionality.functional_extensionality_dep.  No other axiom. *)
+From Coq Require Import Reals.
+From Flocq Require Import Core BinarySingleNaN.
+Require Import CV.SpreadFloat CV.SpreadFloatProofs.
+
+(* [R] "dem*max + (1-dem)*min stays in [min,max] for 0 <= dem <= 1" is FALSE in binary32, even for integer limits
+   below 2^22: dem = 2^-25 (1 + 2^-23), bin [2097153, 2097154] gives 2097152.75 *)
+Theorem c06_spread_float_refuted :
+  exists (dem : f32) (mn mx : Z),
+    is_finite dem = true /\ (0 <= B2R dem <= 1)%R /\
+    (Z.abs mn <= 2 ^ 22)%Z /\ (Z.abs mx <= 2 ^ 22)%Z /\ (mn < mx)%Z /\
+    is_finite (spread_expr_f dem (f_of_Z mx) (f_of_Z mn)) = true /\
+    (B2R (spread_expr_f dem (f_of_Z mx) (f_of_Z mn)) < IZR mn)%R.
+Proof.
+  exists wit_dem, 2097153%Z, 2097154%Z.
+  destruct spread_expr_f_below_witness as [H1 [H2 [H3 H4]]].
+  split; [exact H1|]. split; [exact H2|].
+  split; [vm_compute; congruence|]. split; [vm_compute; congruence|]. split; [reflexivity|].
+  split; [exact H3|exact H4].
+Qed.
+
+(* [R] the whole of spreadCells (unrepaired tree), int limits and int demands as spreadCoordX/Y pass them:
+   wit_cells = spread_cells_int_f false [0; 1; 2] [1; 32044; 57] (-117183) (-117133) (SpreadFloat.v): three cells of
+   demand 1, 32044, 57 in the bin [-117183, -117133]: the first cell is put BELOW the bin (-117183.0078125) *)
+Theorem c06_spread_cells_float_below_refuted :
+  exists c : f32,
+    nth_error wit_cells 0 = Some c /\
+    is_finite c = true /\ (B2R c < IZR (-117183))%R.
+Proof. exact spread_cells_f_below_witness. Qed.
+
+(* [R] ... and wit2_cells = spread_cells_int_f false [0; 1; ...; 4241] [1; ...; 1] 0 100000: 4242 cells of demand 1 in the bin
+   [0, 100000]: `dem` has drifted to 1 + 19 * 2^-23 when the last cell is
+   reached and that cell is put ABOVE the bin (100000.2265625); a four-cell instance of the same effect follows *)
+Theorem c06_spread_cells_float_above_refuted :
+  exists c : f32,
+    nth_error wit2_cells 4241 = Some c /\
+    is_finite c = true /\ (IZR 100000 < B2R c)%R.
+Proof. exact spread_cells_f_above_witness. Qed.
+
+Theorem c06_spread_cells_float_above_refuted_small :
+  exists c : f32,
+    nth_error wit3_cells 3 = Some c /\
+    is_finite c = true /\ (IZR 100000 < B2R c)%R.
+Proof. exact spread_cells_f_above_witness_small. Qed.
+
+(* [R] the accumulated demand fraction itself exceeds 1 (4242 equal cells): 1.0f - dem is then negative *)
+Theorem c06_spread_dem_exceeds_one_refuted :
+  is_finite wit2_dem_final = true /\ (1 < B2R wit2_dem_final)%R.
+Proof. exact spread_dem_exceeds_one_witness. Qed.
+
+(* [F] what IS true of the unrepaired expression: integer limits of magnitude <= 2^k (0 <= k <= 23), every finite dem in
+   [0,1]: no overflow, and the coordinate leaves [min, max] by at most 2^(k-23) (1/2 for the C07 range 2^22, 1/4 for 2^21,
+   ...): one unit in the last place of the magnitude bound.  The witness above attains 1/4 with limits in (2^21, 2^22]. *)
+Theorem c06_spread_float_slack : forall (k mn mx : Z) (dem : f32),
+  (0 <= k <= 23)%Z -> (Z.abs mn <= 2 ^ k)%Z -> (Z.abs mx <= 2 ^ k)%Z -> (mn <= mx)%Z ->
+  is_finite dem = true -> (0 <= B2R dem <= 1)%R ->
+  is_finite (spread_expr_f dem (f_of_Z mx) (f_of_Z mn)) = true /\
+  (IZR mn - bpow radix2 (k - 23) <= B2R (spread_expr_f dem (f_of_Z mx) (f_of_Z mn)) <= IZR mx + bpow radix2 (k - 23))%R.
+Proof. exact spread_expr_f_slack. Qed.
+
+Example c06_spread_float_slack_nonvacuous :
+  B2SF (spread_expr_f (f_of_me 1 (-2)) (f_of_Z 1000) (f_of_Z (-3))) = B2SF (f_of_me 991 (-2)).
+Proof. vm_compute. reflexivity. Qed.
+
+(* [F] the repaired expression (coordinate clamped into the bin, candidate fix a28082d of finding F21): inside
+   [min, max] for EVERY binary32 value of dem -- NaN, infinities and dem > 1 included *)
+Theorem c06_spread_float_clamped_inside : forall (dem : f32) (mn mx : Z),
+  (Z.abs mn <= 2 ^ 24)%Z -> (Z.abs mx <= 2 ^ 24)%Z -> (mn <= mx)%Z ->
+  is_finite (spread_expr_clamped_f dem (f_of_Z mx) (f_of_Z mn)) = true /\
+  (IZR mn <= B2R (spread_expr_clamped_f dem (f_of_Z mx) (f_of_Z mn)) <= IZR mx)%R.
+Proof. exact spread_expr_clamped_f_inside_int. Qed.
+
+(* [F] repaired spreadCells, any targets and demands (NaN included): every entry of the returned vector is the
+   initial 0.0f or a finite value of [lo, hi].  _partial: that the cells of positive demand ARE written is proved for the
+   exact model only (c06_spread_cells_inside), not for this binary32 loop *)
+Theorem c06_spread_cells_float_clamped_entries_partial : forall (targets demands : list f32) (lo hi : f32),
+  is_finite lo = true -> is_finite hi = true -> (B2R lo <= B2R hi)%R ->
+  Forall (fun v => v = fzero \/ (is_finite v = true /\ (B2R lo <= B2R v <= B2R hi)%R))
+         (spread_cells_f true targets demands lo hi).
+Proof. exact spread_cells_clamped_f_entries. Qed.
+
+Example c06_spread_cells_float_clamped_nonvacuous :
+  map B2SF (spread_cells_int_f true [f_of_Z 0; f_of_Z 1; f_of_Z 2; f_of_Z 3] [1994072; 1655332; 1892993; 1]%Z 0 100000)
+  = map B2SF [f_of_me 9210498 (-9); f_of_me 13033438 (-8); f_of_me 10614095 (-7); f_of_Z 100000].
+Proof. vm_compute. reflexivity. Qed.
+
 Print Assumptions c06_spread_cells_inside.
 Print Assumptions c06_spread_coord_inside.
 Print Assumptions c06_spread_coord_no_bin.
@@ -219,3 +315,11 @@ Print Assumptions c06_ub_centre_inside.
 Print Assumptions c06_no_bin_centre.
 Print Assumptions c06_export_is_blend.
 Print Assumptions c06_export_frame.
+Print Assumptions c06_spread_float_refuted.
+Print Assumptions c06_spread_cells_float_below_refuted.
+Print Assumptions c06_spread_cells_float_above_refuted.
+Print Assumptions c06_spread_cells_float_above_refuted_small.
+Print Assumptions c06_spread_dem_exceeds_one_refuted.
+Print Assumptions c06_spread_float_slack.
+Print Assumptions c06_spread_float_clamped_inside.
+Print Assumptions c06_spread_cells_float_clamped_entries_partial.
